@@ -75,6 +75,9 @@ func (p *c07Pair) spec(v *c07Variant) *simrt.Spec {
 			{"name": "dup/a.go", "content": "package dup\n\nvar A = 1\n"},
 			{"name": "dup/a.go", "content": big},
 			{"name": "dup/a_1.go", "content": "package dup\n\nvar C = 3\n"},
+			// a template fragment: gofmt cannot take it; it is written as it is, and the other files are formatted all the same
+			{"name": "dup/handler_tpl.go", "content": "package dup\n\nfunc {{.Name}}(ctx context.Context) {\n}\n"},
+			{"name": "dup/z_after.go", "content": "package dup\n\nvar   D   =   4\n"},
 			{"name": "dup/notes.txt", "content": "@@thriftgo_insertion_point(x)notes@@thriftgo_insertion_point(y)\n"},
 			{"ip": "x", "content": "patched, see @@thriftgo_insertion_point(y) "},
 			{"ip": "y", "content": " end"},
